@@ -4,7 +4,7 @@ CONSTANTS
   Srcs = {"ready_val", "ready_exc", "after_val", "after_err", "on_after_val", "run_val", "run_throw", "task_val", "sched_val", "lcontract_val"}
   Atts = {"inline", "e1", "e2", "inh"}
   Args = {"V", "E", "X", "R"}
-  Behs = {"val", "throw", "fut_pending", "task_make"}
+  Behs = {"val", "void_hop", "void_throw", "throw", "fut_pending", "task_make"}
   Rejects = {0, 1, 9}
   Starts = {"to_future", "to_future_e2", "detach_e2"}
 INVARIANTS CalledXorDropped DropOnlyWhenStopped RanWhereTold InvokedInOrder LazyEqualsEager CancelRunsNoValueCallback AllocBound Emit
